@@ -38,7 +38,10 @@ def rename_locals(src, fn):
             a = n.args
             for p in a.posonlyargs + a.args + a.kwonlyargs:
                 if p.arg in targets:
-                    return None
+                    if isinstance(n, ast.Lambda):
+                        edits.append((p.lineno, p.col_offset, len(p.arg), p.arg + "_rn"))
+                    else:
+                        return None
     lines = src.split("\n")
     # byte offsets: col_offset is in utf8 bytes; files are ascii mostly
     for (ln, col, ln_len, new) in sorted(edits, key=lambda e: (e[0], -e[1]), reverse=False):
